@@ -448,7 +448,7 @@ impl PerVisible for ElementOrSetOperation {
         match self {
             ElementOrSetOperation::Element(e) => e.per_visible(),
             ElementOrSetOperation::SetOperation(o) => {
-                o.operant.per_visible() || o.operant.per_visible()
+                o.base.per_visible() || o.operant.per_visible()
             }
         }
     }
@@ -569,14 +569,17 @@ fn fold_constraint_set(
                 extensible: _,
             },
             Some(c),
-        )
-        | (
+        ) => {
+            // the contained type's own constraints are not known here: only an intersection keeps the other operand's bound
+            return Ok((set.operator == SetOperator::Intersection).then(|| c.clone()));
+        }
+        (
             c,
             Some(SubtypeElements::ContainedSubtype {
                 subtype: _,
                 extensible: _,
             }),
-        ) => return Ok(Some(c.clone())),
+        ) => return Ok((set.operator != SetOperator::Union).then(|| c.clone())),
         (SubtypeElements::PermittedAlphabet(elem_or_set), None)
         | (SubtypeElements::SizeConstraint(elem_or_set), None) => {
             return match &**elem_or_set {
